@@ -702,7 +702,6 @@ Proof.
   destruct (is_nil (spec_answers _ _ _ _ _ _)); [exact I|].
   destruct (negb (family_enabled (h_intf inp) (is_v4 (h_src_ip inp)))); [exact I|].
   unfold reaction_equiv, packet_equiv. cbn [p_dest p_if p_id p_flags p_questions p_answers p_additionals].
-  cbn [k_legacy_id code_quirks].
   destruct (legacy inp); repeat split; try reflexivity; try apply Permutation_refl.
   - apply Permutation_map. exact Hp.
   - exact Hp.
@@ -726,10 +725,6 @@ Variable v4 : bool.
 Definition fam_ok (e : entry) : Prop :=
   is_announced (e_status e) = true ->
   forall a, In a (s_addrs (e_svc e)) -> addr_on_intf intf a = false \/ is_v4 a = v4.
-Definition host_ok (e : entry) : Prop :=
-  is_announced (e_status e) = true -> resolve_name nc (s_host (e_svc e)) = s_host (e_svc e).
-Definition key_ok (e : entry) : Prop :=
-  resolve_name nc (e_key e) = lower (resolve_name nc (s_fullname (e_svc e))).
 Definition sub_ok (q : question) (e : entry) : Prop :=
   is_announced (e_status e) = true -> is_sub (e_svc e) (q_name q) = false.
 
@@ -766,36 +761,22 @@ Proof.
   destruct (beq (q_name q) (s_ty (e_svc e))); reflexivity.
 Qed.
 
-Lemma spec_inst_entry_clean q e : fam_ok e -> host_ok e -> key_ok e ->
+Lemma spec_inst_entry_clean q e : fam_ok e ->
   spec_inst_entry code_quirks nc intf m v4 q e = spec_inst_entry text_quirks nc intf m v4 q e.
 Proof.
-  intros Hf Hh Hk. unfold spec_inst_entry, inst_match.
-  cbn [k_lookup_lower k_srv_old_host code_quirks text_quirks].
-  rewrite (answerable_clean e Hf). unfold ci_eq, cur_inst. rewrite Hk, beq_sym.
-  destruct (beq (lower (q_name q)) (lower (resolve_name nc (s_fullname (e_svc e))))); [|reflexivity].
-  cbn [andb]. destruct (answerable text_quirks intf v4 e) eqn:Ea; [|reflexivity].
-  apply answerable_announced in Ea.
-  unfold cur_host. rewrite (Hh Ea), (link_addrs_clean e Hf Ea). reflexivity.
-Qed.
-
-Lemma spec_meta_clean entries q :
-  (beq (q_name q) META_QUERY = true -> nodup_b (meta_types entries) = true) ->
-  spec_meta code_quirks m entries q = spec_meta text_quirks m entries q.
-Proof.
-  intros H. unfold spec_meta. cbn [k_meta_dup code_quirks text_quirks].
-  destruct (beq (q_name q) META_QUERY); [|reflexivity].
-  rewrite nodup_fixed_point; [reflexivity|]. apply nodup_b_NoDup. apply H. reflexivity.
+  intros Hf. unfold spec_inst_entry. rewrite (answerable_clean e Hf).
+  destruct (inst_match nc q e); [|reflexivity]. cbn [andb].
+  destruct (answerable text_quirks intf v4 e) eqn:Ea; [|reflexivity].
+  apply answerable_announced in Ea. rewrite (link_addrs_clean e Hf Ea). reflexivity.
 Qed.
 
 Lemma spec_question_clean entries q :
-  (forall e, In e entries -> fam_ok e /\ host_ok e /\ key_ok e) ->
+  (forall e, In e entries -> fam_ok e) ->
   (q_type q =? 12 = true -> forall e, In e entries -> sub_ok q e) ->
-  (q_type q =? 12 = true -> beq (q_name q) META_QUERY = true -> nodup_b (meta_types entries) = true) ->
   spec_question code_quirks nc intf m v4 entries q = spec_question text_quirks nc intf m v4 entries q.
 Proof.
-  intros He Hs Hm. unfold spec_question. destruct (q_type q =? 12) eqn:Et.
-  - rewrite (spec_meta_clean entries q (Hm eq_refl)). f_equal; [f_equal|];
-      apply flat_map_ext_in; intros e Hin; rewrite spec_ptr_entry_clean; try reflexivity;
+  intros He Hs. unfold spec_question. destruct (q_type q =? 12) eqn:Et.
+  - f_equal; [f_equal|]; apply flat_map_ext_in; intros e Hin; rewrite spec_ptr_entry_clean; try reflexivity;
       try (apply He; exact Hin); apply Hs; auto.
   - f_equal; [f_equal|]; apply flat_map_ext_in; intros e Hin;
       rewrite spec_inst_entry_clean; try reflexivity; apply He; exact Hin.
@@ -803,59 +784,41 @@ Qed.
 End Clean.
 
 Lemma clean_components inp : clean inp = true ->
-  let nc := h_name_changes inp in
   let v4 := is_v4 (h_src_ip inp) in
-  (forall e, In e (h_services inp) -> fam_ok (h_intf inp) v4 e /\ host_ok nc e /\ key_ok nc e) /\
+  (forall e, In e (h_services inp) -> fam_ok (h_intf inp) v4 e) /\
   (forall q, In q (m_questions (h_msg inp)) -> q_type q =? 12 = true ->
-             forall e, In e (h_services inp) -> sub_ok q e) /\
-  (forall q, In q (m_questions (h_msg inp)) -> q_type q =? 12 = true -> beq (q_name q) META_QUERY = true ->
-             nodup_b (meta_types (h_services inp)) = true) /\
-  ((h_src_port inp =? 5353) = true \/ m_id (h_msg inp) = 0).
+             forall e, In e (h_services inp) -> sub_ok q e).
 Proof.
-  unfold clean. rewrite !andb_true_iff. intros (((((C1 & C2) & C3) & C4) & C5) & C6). cbv zeta.
-  rewrite forallb_forall in C2, C3, C4, C5.
+  unfold clean. rewrite !andb_true_iff. intros (C2 & C3). cbv zeta.
+  rewrite forallb_forall in C2, C3.
   assert (Hann : forall e, In e (h_services inp) -> is_announced (e_status e) = true ->
                  In e (filter (fun e => is_announced (e_status e)) (h_services inp))).
   { intros e Hin Ha. apply filter_In. split; assumption. }
-  repeat split.
-  - intros Ha a Hina. specialize (C3 e (Hann e H Ha)). rewrite forallb_forall in C3.
+  split.
+  - intros e H Ha a Hina. specialize (C3 e (Hann e H Ha)). rewrite forallb_forall in C3.
     specialize (C3 a Hina). apply orb_true_iff in C3 as [C3|C3].
     + left. apply negb_true_iff in C3. exact C3.
     + right. apply eqb_prop in C3. exact C3.
-  - intros Ha. specialize (C4 e (Hann e H Ha)). apply beq_eq in C4. exact C4.
-  - specialize (C5 e H). apply beq_eq in C5. exact C5.
   - intros q Hq Ht e He Ha. specialize (C2 q Hq). rewrite Ht in C2. cbn [negb orb] in C2.
     rewrite forallb_forall in C2. specialize (C2 e (Hann e He Ha)). apply negb_true_iff in C2. exact C2.
-  - intros q Hq Ht Hm. apply orb_true_iff in C1 as [C1|C1]; [|exact C1].
-    apply negb_true_iff in C1. exfalso.
-    assert (existsb (fun q => (q_type q =? 12) && beq (q_name q) META_QUERY) (m_questions (h_msg inp)) = true).
-    { apply existsb_exists. exists q. rewrite Ht, Hm. auto. }
-    congruence.
-  - apply orb_true_iff in C6 as [C6|C6]; [left; exact C6|right; apply N.eqb_eq; exact C6].
 Qed.
 
 Theorem spec_code_is_text_when_clean inp : clean inp = true ->
   spec code_quirks inp = spec text_quirks inp.
 Proof.
-  intros Hc. apply clean_components in Hc. cbv zeta in Hc. destruct Hc as (He & Hs & Hm & Hid).
+  intros Hc. apply clean_components in Hc. cbv zeta in Hc. destruct Hc as (He & Hs).
   unfold spec. cbv zeta.
   assert (Hq : forall q, In q (m_questions (h_msg inp)) ->
             spec_question code_quirks (h_name_changes inp) (h_intf inp) (h_msg inp) (is_v4 (h_src_ip inp)) (h_services inp) q
             = spec_question text_quirks (h_name_changes inp) (h_intf inp) (h_msg inp) (is_v4 (h_src_ip inp)) (h_services inp) q).
-  { intros q Hin. apply spec_question_clean.
-    - exact He.
-    - intros Ht. apply Hs; assumption.
-    - intros Ht Hmq. eapply Hm; eassumption. }
+  { intros q Hin. apply spec_question_clean; [exact He|]. intros Ht. apply Hs; assumption. }
   assert (Ha : spec_answers code_quirks (h_name_changes inp) (h_intf inp) (h_msg inp) (is_v4 (h_src_ip inp)) (h_services inp)
              = spec_answers text_quirks (h_name_changes inp) (h_intf inp) (h_msg inp) (is_v4 (h_src_ip inp)) (h_services inp)).
   { unfold spec_answers. apply flat_map_ext_in. intros q Hin. rewrite Hq; [reflexivity|exact Hin]. }
   assert (Hd : spec_additionals code_quirks (h_name_changes inp) (h_intf inp) (h_msg inp) (is_v4 (h_src_ip inp)) (h_services inp)
              = spec_additionals text_quirks (h_name_changes inp) (h_intf inp) (h_msg inp) (is_v4 (h_src_ip inp)) (h_services inp)).
   { unfold spec_additionals. apply flat_map_ext_in. intros q Hin. rewrite Hq; [reflexivity|exact Hin]. }
-  rewrite Ha, Hd. cbn [k_legacy_id code_quirks text_quirks].
-  assert (Hidq : (if legacy inp then 0 else 0) = (if legacy inp then m_id (h_msg inp) else 0)).
-  { unfold legacy. destruct Hid as [Hp|Hz]; [rewrite Hp; reflexivity|rewrite Hz; reflexivity]. }
-  rewrite Hidq. reflexivity.
+  rewrite Ha, Hd. reflexivity.
 Qed.
 
 (* ---- the executable checker accepts equivalent reactions ------------------------------------- *)
@@ -913,7 +876,7 @@ Theorem legacy_unicast inp p :
   p_dest p = DUnicast (h_src_ip inp) (h_src_port inp) /\
   p_questions p = map (fun q => (q_name q, q_type q)) (m_questions (h_msg inp)) /\
   Forall (fun r => r_flush r = false) (p_answers p ++ p_additionals p) /\
-  p_id p = 0.
+  p_id p = m_id (h_msg inp).
 Proof.
   intros Hwf Hq Hport. apply wf_input_entries in Hwf. rewrite (handle_query_shape inp Hwf) in Hq.
   cbv zeta in Hq.
@@ -958,8 +921,8 @@ Theorem silent_for_unknown inp :
 Proof.
   intros Hna. apply handle_query_no_answers. apply fold_left_id. intros og q _.
   unfold question_step.
-  assert (Hp : fold_left (ptr_step inp q (is_v4 (h_src_ip inp))) (h_services inp) og = og).
-  { apply fold_left_id. intros og' e He. unfold ptr_step. rewrite (Hna e He). reflexivity. }
+  assert (Hp : fst (fold_left (ptr_step inp q (is_v4 (h_src_ip inp))) (h_services inp) (og, [])) = og).
+  { rewrite fold_left_id; [reflexivity|]. intros [og' seen] e He. unfold ptr_step. rewrite (Hna e He). reflexivity. }
   assert (Ha : fold_left (addr_step inp q) (h_services inp) og = og).
   { apply fold_left_id. intros og' e He. unfold addr_step. rewrite (Hna e He). reflexivity. }
   destruct (q_type q =? TY_PTR); [exact Hp|].
@@ -998,7 +961,7 @@ Proof.
   { intros e v4 He Ha. unfold intf_addrs_of. destruct v4;
       [apply no_address_v4|apply no_address_v6]; apply Hno; assumption. }
   destruct (q_type q =? TY_PTR) eqn:Et.
-  - apply fold_left_id. intros og' e He. unfold ptr_step.
+  - rewrite fold_left_id; [reflexivity|]. intros [og' seen] e He. unfold ptr_step.
     destruct (is_announced (e_status e)) eqn:Ea; [|reflexivity]. cbn [negb].
     destruct (matches_type_or_subtype (e_svc e) (q_name q)).
     + unfold add_answer_with_additionals. rewrite (Hia e _ He Ea). reflexivity.
@@ -1097,7 +1060,8 @@ Proof.
     + destruct ((q_type q =? 16) || (q_type q =? 255)); [destruct H as [<-|[]]; exact I|destruct H].
   - (* address additionals of an SRV question *)
     apply in_flat_map in H as [e [He H]]. unfold spec_inst_entry in H.
-    destruct (_ && _); [|destruct H]. cbn [snd] in H. destruct (q_type q =? 33); [|destruct H].
+    destruct (_ && _); [|destruct H]. cbn [snd] in H.
+    destruct ((q_type q =? 33) && _); [|destruct H].
     eapply sp_addr_on_link; [exact He| |exact H]. intros a Ha. eapply link_addrs_on_link. exact Ha.
 Qed.
 
